@@ -35,6 +35,10 @@ type ilCase struct {
 	// the engine then reach Halt while depth 1 is pending (Halt has to wait for it by design);
 	// the harness releases depth 1 right after sending such a command.
 	HoldFirst bool `json:"hold_first,omitempty"`
+	// Stall (with HoldFirst): the first iteration of a "go movetime 300" stays held until the next
+	// command, which halts it, has been sent AND the move time has run out: the timer fires while
+	// the command loop is waiting for depth 1 on behalf of the superseding command.
+	Stall bool `json:"stall,omitempty"`
 	Actions []ilAction `json:"actions"`
 }
 
@@ -209,8 +213,32 @@ var checkC16 = def("C16/interleave", func(c ilCase) error {
 	// releaseFirstIterations lets every analysis that is held before its depth-1 search run it:
 	// called right after a command that halts the engine was sent (the command loop is then
 	// inside Halt, waiting for exactly that).
+	var stalledAt *time.Time
+	releaseLimit := -1
 	releaseFirstIterations := func() {
 		if !c.HoldFirst {
+			return
+		}
+		if stalledAt != nil {
+			if el := time.Since(*stalledAt); el < 200*time.Millisecond {
+				time.Sleep(320*time.Millisecond - el) // let the move timer of the held search fire first
+				labels = append(labels, "move-timer-fired-while-the-loop-waited-for-depth-1")
+			}
+			stalledAt = nil
+		}
+		if releaseLimit >= 0 {
+			// (stall scripts) only the first iterations that were pending BEFORE the command was sent: the
+			// new search's own first iteration stays held
+			n := releaseLimit
+			releaseLimit = -1
+			for i := 0; i < n && i < len(heldEvents); {
+				if heldEvents[i].depth == 1 {
+					release(i)
+					n--
+					continue
+				}
+				i++
+			}
 			return
 		}
 		time.Sleep(2 * time.Millisecond)
@@ -283,7 +311,14 @@ var checkC16 = def("C16/interleave", func(c ilCase) error {
 		if !alive {
 			return nil
 		}
-		if why := s.barrier(); why != "" {
+		why := s.barrier()
+		if why != "" && stalledAt != nil {
+			// the harness itself was holding a first iteration the command loop may be waiting for
+			stalledAt = nil
+			releaseFirstIterations()
+			why = s.barrier()
+		}
+		if why != "" {
 			return fmt.Errorf("step %d (%s): isready not answered: %s", step, what, why)
 		}
 		collect(0)
@@ -357,6 +392,10 @@ var checkC16 = def("C16/interleave", func(c ilCase) error {
 			}
 			bm := len(bestmoves(s.snapshotLines()))
 			launchesBefore := gs.launchCount()
+			if c.Stall && verb == "go" {
+				collect(0)
+				releaseLimit = len(heldEvents)
+			}
 			if !s.send(a.Line) {
 				return fmt.Errorf("step %d: driver stopped reading input before %q", i, a.Line)
 			}
@@ -408,7 +447,18 @@ var checkC16 = def("C16/interleave", func(c ilCase) error {
 				// depth 1: the harness must not keep depth 1 pending past that (it would block the
 				// loop itself, not the driver's fault)
 				if c.HoldFirst && rec.mayEnd {
-					releaseFirstIterations()
+					stall := false
+					if c.Stall && strings.TrimSpace(a.Line) == "go movetime 300" && i+1 < len(c.Actions) {
+						n := c.Actions[i+1]
+						nv := strings.ToLower(strings.TrimSpace(n.Line))
+						stall = n.Kind == "position" || (n.Kind == "cmd" && (strings.HasPrefix(nv, "go") || nv == "stop" || nv == "ucinewgame") && !shutdownLine(n.Line, g))
+					}
+					if stall {
+						now := time.Now()
+						stalledAt = &now
+					} else {
+						releaseFirstIterations()
+					}
 				}
 				labels = append(labels, "go")
 			case "stop":
@@ -495,6 +545,9 @@ var checkC16 = def("C16/interleave", func(c ilCase) error {
 		releaseAll()
 	}
 	time.Sleep(2 * time.Millisecond) // a late send on the closed output would panic here
+	if os.Getenv("VERIF_DEBUG_C16") != "" {
+		fmt.Printf("DEBUG lines: %q labels: %v\n", s.snapshotLines(), labels)
+	}
 	// a clean shutdown leaves nobody behind: once the move-time timers of this script have fired
 	// (they are at most 30 ms), no goroutine may still be inside the driver
 	hadMoveTime := false
@@ -555,9 +608,15 @@ func genIlCase(t *rapid.T) ilCase {
 		c.Engine = "morlock"
 	}
 	c.HoldFirst = c.Gated && rapid.IntRange(0, 2).Draw(t, "holdfirst") == 0
+	c.Stall = c.HoldFirst && rapid.Bool().Draw(t, "stall")
 	n := rapid.IntRange(2, 25).Draw(t, "nactions")
 	var lastPos *posCmd
 	for i := 0; i < n; i++ {
+		if c.Stall && rapid.IntRange(0, 5).Draw(t, "stallpair") == 0 {
+			c.Actions = append(c.Actions, ilAction{Kind: "cmd", Line: "go movetime 300"},
+				ilAction{Kind: "cmd", Line: rapid.SampledFrom([]string{"go infinite", "go depth 2", "go", "stop", "ucinewgame", "go movetime 300"}).Draw(t, "superseder")})
+			continue
+		}
 		switch rapid.IntRange(0, 19).Draw(t, "akind") {
 		case 0, 1, 2, 3:
 			var line string
